@@ -64,6 +64,8 @@ class Rendered:
     stmt_last_line: dict  # stmt index -> line of its last token
     fixed: bool = False
     case: str = "asis"
+    # compos[(stmt index, k)] = (line, col, name): the k-th name written into a generated trailing comment of that statement
+    compos: dict = field(default_factory=dict)
 
     def fwd(self, canon: "Rendered", line: int, col: int):
         """Map a position of the canonical rendering to this rendering."""
@@ -87,16 +89,23 @@ class Layout:
         self.fixed_comment_char = kw.get("fixed_comment_char", "C")
         self.fixed_cont_char = kw.get("fixed_cont_char", "&")
         self.no_indent = kw.get("no_indent", False)
+        # fixed form only: statements whose initial line carries a zero in column 6 (blank or zero = initial line)
+        self.zero_col6 = kw.get("zero_col6", set())
+        # fixed form only: the continued text starts in column 7, directly after the continuation mark
+        self.fixed_cont_tight = kw.get("fixed_cont_tight", False)
+        # trailing comments (of `trailing_comment`, of the split style "trail_comment") name the identifiers of their statement
+        self.comment_names = kw.get("comment_names", False)
 
     def describe(self):
         d = {}
         for k in ("blank_above", "comment_above", "split"):
             if getattr(self, k):
                 d[k] = {str(a): b for a, b in getattr(self, k).items()}
-        for k in ("trailing_comment", "join_next"):
+        for k in ("trailing_comment", "join_next", "zero_col6"):
             if getattr(self, k):
                 d[k] = sorted(getattr(self, k))
-        for k, dflt in (("eol", "\n"), ("trailing_blanks", 0), ("case", "asis"), ("fixed", False), ("no_indent", False), ("join_sep", "; ")):
+        for k, dflt in (("eol", "\n"), ("trailing_blanks", 0), ("case", "asis"), ("fixed", False), ("no_indent", False), ("join_sep", "; "),
+                        ("fixed_cont_tight", False), ("comment_names", False)):
             if getattr(self, k) != dflt:
                 d[k] = getattr(self, k)
         if self.fixed:
@@ -115,6 +124,8 @@ def _case(tok: str, mode: str, k: int):
     return tok.upper() if k % 2 == 0 else tok.lower()
 
 
+# "trail_comment" (an ordinary '!' comment after the non-final line; the names of the statement in it with `comment_names`)
+# is not part of SPLIT_STYLES: free form has "amp_comment" for that, the fixed-form renderings of C14 ask for it by name
 SPLIT_STYLES = ("plain", "lead_amp", "comment_between", "blank_between", "amp_comment", "spaces_between")
 
 
@@ -126,6 +137,25 @@ def render(stmts, lay: Layout = None) -> Rendered:
     pending = None  # (current line text) when joining with ';'
     i = 0
     ntok = 0
+    compos = {}
+
+    def trailing(cur_line, group, k0):
+        """Text of a trailing comment after `cur_line` (a line of the statements `group`)."""
+        if not lay.comment_names:
+            return " ! trailing"
+        names = []
+        for s in group:
+            for _, _, tok in reversed(stmts[s].toks):
+                if re.match(r"[A-Za-z_]\w*$", tok) and tok.lower() not in (n.lower() for n in names):
+                    names.append(tok)
+        txt = " ! note"
+        for k, nm in enumerate(names):
+            if k and lay.fixed and len(cur_line) + len(txt) + 1 + len(nm) > 72:
+                break
+            compos[(group[0], k0 + k)] = (len(lines), len(cur_line) + len(txt) + 1, nm)
+            txt += " " + nm + ","
+        return txt.rstrip(",")
+
     # the text of a comment is arbitrary: it may look like a statement and contain ;
     ccomment = (lay.fixed_comment_char + " layout note; integer :: ghost_from_comment") if lay.fixed else "! layout note; integer :: ghost_from_comment"
     while i < len(stmts):
@@ -149,7 +179,7 @@ def render(stmts, lay: Layout = None) -> Rendered:
         indent = "" if lay.no_indent else re.match(r" *", st.text).group(0)
         label = ""
         if lay.fixed:
-            cur = "      " + indent
+            cur = ("     0" if i in lay.zero_col6 else "      ") + indent
         else:
             cur = indent
         first_of_line = True
@@ -162,7 +192,7 @@ def render(stmts, lay: Layout = None) -> Rendered:
             for t, (a, b, tok) in enumerate(sst.toks):
                 # statement label in fixed form goes to columns 1-5
                 if lay.fixed and t == 0 and tok.isdigit() and gi == 0 and len(sst.toks) > 1:
-                    cur = f"{tok:<5} " + cur[6:]
+                    cur = f"{tok:<5}" + cur[5:]
                     tokpos[(s, t)] = (len(lines), 0)
                     stmt_line.setdefault(s, len(lines))
                     prev_end = b
@@ -170,17 +200,18 @@ def render(stmts, lay: Layout = None) -> Rendered:
                 if t in splits and t > 0:
                     style = splits[t]
                     if lay.fixed:
-                        lines.append(cur)
+                        lines.append(cur + (trailing(cur, group, 100 * t) if style == "trail_comment" else ""))
                         if style == "comment_between":
                             lines.append(ccomment)
                         elif style == "blank_between":
                             lines.append(lay.fixed_comment_char)
                         elif style == "spaces_between":
                             lines.append("   ")
-                        cur = "     " + lay.fixed_cont_char + indent + "  "
+                        cur = "     " + lay.fixed_cont_char + ("" if lay.fixed_cont_tight else indent + "  ")
                     else:
                         # amp_comment: an ordinary trailing comment (itself containing '&') after the marker
-                        lines.append(cur + (" & ! cells in x & y" if style == "amp_comment" else " &"))
+                        lines.append(cur + (" & ! cells in x & y" if style == "amp_comment" else
+                                            " &" + trailing(cur + " &", group, 100 * t) if style == "trail_comment" else " &"))
                         if style == "comment_between":
                             lines.append(indent + "  ! continuation comment")
                         elif style == "blank_between":
@@ -198,14 +229,14 @@ def render(stmts, lay: Layout = None) -> Rendered:
                 ntok += 1
                 prev_end = b
             stmt_last[s] = len(lines)
-        if group[-1] in lay.trailing_comment and not lay.fixed:
-            cur += " ! trailing"
+        if group[-1] in lay.trailing_comment and (lay.comment_names or not lay.fixed):
+            cur += trailing(cur, group, 0)
         lines.append(cur)
         i = group[-1] + 1
     if lay.trailing_blanks:
         lines = [ln + " " * lay.trailing_blanks if ln.strip() else ln for ln in lines]
     text = lay.eol.join(lines) + lay.eol
-    return Rendered(text, tokpos, stmt_line, stmt_last, lay.fixed, lay.case)
+    return Rendered(text, tokpos, stmt_line, stmt_last, lay.fixed, lay.case, compos)
 
 
 class PosMap:
